@@ -2625,8 +2625,10 @@ class Network(Cached):
             if self.silence_level <= 1:
                 print("Calculating weighted shortest path lengths...")
 
+            # an igraph object without edges cannot hold edge attributes
+            weights = link_attribute if self.graph.ecount() > 0 else None
             return np.array(
-                self.graph.distances(weights=link_attribute, mode=1))
+                self.graph.distances(weights=weights, mode=1))
 
     def average_path_length(self, link_attribute=None):
         """
